@@ -12,7 +12,7 @@ import (
 // findSim searches a sortition seed under which `ok` holds (the adversary plans with the real sortition).
 func findSim(t *testing.T, power []uint64, byz []bool, ok func(s *bs.Sim) bool) *bs.Sim {
 	for seed := uint64(0); seed < 500; seed++ {
-		s := bs.New(bs.Config{Power: power, Byz: byz, Height: 1, RootHeight: 5, Seed: seed})
+		s := bs.New(bs.Config{Power: power, Byz: byz, Height: 1, RootHeight: 5, Seed: seed, LastRootHeightUpdated: 5})
 		if ok(s) {
 			return s
 		}
@@ -351,5 +351,55 @@ func TestC15Reg_LockedProposalWithSlashesIsReproposable(t *testing.T) {
 	s.RunRound(steer(s, 5, 1, L2, []int{0, 1, 2}, func(e *bs.Env, to int) bool { return e.From != D && e.Kind != "PM" }))
 	if s.CommittedCorrect() == 0 {
 		t.Fatalf("VIOLATION: every correct replica is locked on the round-0 proposal that slashes validator %d; correct leader %d re-proposed it in round 1 (synchronous, all messages delivered) and nothing committed - the evidence that justifies the slash is gone after NewRound()\nschedule: %s", D, L2, bs.Wrap(s.Descriptor()))
+	}
+}
+
+// TestC15Reg_HighQcWithForgedBuildHeightPoisonsLeader: together with a reported HighQc the leader adopts the voter's
+// RcBuildHeight - a field that neither the vote's signature nor the certificate covers. A Byzantine voter that holds
+// a withheld +2/3 PROPOSE_VOTE certificate reports it (with its block and results, so it passes every check) and
+// claims another build height: the correct leader re-proposes the block with that build height, every replica
+// recomputes the certificate results for the claimed root height (or refuses a build height below the committee's
+// last root height), the proposal is rejected - in every round led by a replica whose own lock is lower.
+func TestC15Reg_HighQcWithForgedBuildHeightPoisonsLeader(t *testing.T) {
+	const D = 3
+	all := []int{0, 1, 2, 3}
+	var L int
+	s := findSim(t, four, dByz, func(s *bs.Sim) bool {
+		if !s.PlanLeader(5, 0, D, all).OK {
+			return false
+		}
+		for L = 0; L < 3; L++ {
+			if pl := s.PlanLeader(5, 1, L, []int{0, 1, 2}); pl.OK && pl.Votes-10 >= 30 {
+				return true
+			}
+		}
+		return false
+	})
+	defer s.Close()
+	// round 0: D leads, collects a +2/3 PROPOSE_VOTE certificate and withholds PRECOMMIT
+	s.RunRound(steer(s, 5, 0, D, all, func(e *bs.Env, to int) bool {
+		return !(e.From == D && (e.Kind == "PC" || e.Kind == "CM")) && e.Kind != "PM"
+	}))
+	pc, pr := s.LeaderMsg(D, 5, 0, "PC"), s.LeaderMsg(D, 5, 0, "PR")
+	if pc == nil || pr == nil || s.CertPower(pc.Msg.Qc) < 30 {
+		t.Fatalf("setup: no withheld certificate: %s", bs.Wrap(s.Descriptor()))
+	}
+	// round 1: correct leader L; D's election vote arrives first: genuine certificate, genuine block and results, build height 0
+	pol := steer(s, 5, 1, L, []int{0, 1, 2}, func(e *bs.Env, to int) bool { return e.From != D && e.Kind != "PM" })
+	accepted := false
+	pol.After = func(step int, sent []*bs.Env) {
+		for _, e := range sent {
+			if e.Kind == "ELV" && e.View.Round == 1 {
+				hq := bs.CloneQC(pc.Msg.Qc)
+				hq.Block, hq.Results = pr.Msg.Qc.Block, pr.Msg.Qc.Results
+				v := s.CraftVoteBuild(D, s.ElectionVotePayload(5, 1, L), hq, 0, []int{L})
+				accepted = s.Deliver(v.ID, L) == nil
+				return
+			}
+		}
+	}
+	s.RunRound(pol)
+	if s.CommittedCorrect() == 0 {
+		t.Fatalf("VIOLATION: the round of correct leader %d did not commit: it adopted the HighQc reported by Byzantine validator %d (vote accepted=%v) together with the claimed build height 0 (the block was built at root height 5) and its re-proposal was rejected by every replica\nschedule: %s", L, D, accepted, bs.Wrap(s.Descriptor()))
 	}
 }
